@@ -165,6 +165,16 @@ def check_property(prop, cfg, tier="quick", seed=0):
                         knowns.append((kn[0], rec))
                     else:
                         violations.append(rec)
+            # structural obligations (decided on the token stream)
+            for sc in build.structural_checks(g.unit):
+                if prop not in props_of_obl(sc["id"]): continue
+                obligations[sc["id"]] = {"unit": uname, "clause": "structural: " + sc["why"] + " -- " + sc["detail"], "instances": 1, "kind": "structural"}
+                if sc["ok"]: discharged.add(sc["id"])
+                elif sc["lost"]: tool_errors.append("unit %s: structural anchor lost: %s" % (uname, sc["id"]))
+                else:
+                    violations.append({"property": prop, "obligation": sc["id"], "unit": uname, "item": None, "verus_message": "structural obligation failed",
+                                       "sites": [{"item": None, "file": None, "line": None, "stmt": sc["detail"]}], "clause": sc["why"], "verus_output": sc["detail"],
+                                       "counterexample": None, "note": "decided by the extractor on the token stream"})
             # vacuity
             for kind, (exp, seen, terr) in u.canary.items():
                 canary_total += len(exp); canary_seen += len([c for c in exp if c in seen])
